@@ -43,7 +43,9 @@ PROPS = {
                 ["api"], GEN + "both build profiles (debug assertions on and off); non-trivial = distinct history in which node functions ran",
                 builds=("debug", "release"), nq=200),
     "C05": spec(["IncrVerif.Props.C05", "IncrVerif.Props.C01History", "IncrVerif.Props.C05Release"], [("general", 0.3), ("bind", 0.3), ("expert", 0.25), ("life", 0.15)], ["api", "ev", "stats"],
-                GEN + "non-trivial = distinct history in which node functions ran"),
+                GEN + "both build profiles (a node wrongly kept needed usually trips a debug assertion first; the release build shows the "
+                "function running with no live observer); non-trivial = distinct history in which node functions ran",
+                builds=("debug", "release")),
     "C07": spec(["IncrVerif.Props.C07", "IncrVerif.Props.C10History"], [("varw", 0.35), ("general", 0.3), ("life", 0.15), ("expert", 0.2)], ["api", "read", "ev"],
                 GEN + "reads of every observer after every action, and from inside node functions and handlers (readobs effects); "
                 "non-trivial = distinct history with observer reads that succeed"),
